@@ -61,7 +61,7 @@ def family(prop, tier, exe, wd):
         raise ToolError("no family for " + prop)
     pred = {"C03": F.no_abs, "C04": F.no_abs, "C07": F.has_norep, "C09": F.has_special, "C08": F.has_abs}.get(prop)
     jobs += F.modifier_table(pred)
-    jobs += fancy_ref_jobs(pred, 40 if not thorough else 400)
+    jobs += fancy_ref_jobs(pred, 60 if not thorough else 400)
     import e3
     jobs += F.per_key(e3.tool_keys(exe, wd), pred, 2 if not thorough else 3)
     return jobs
@@ -93,7 +93,8 @@ def fancy_ref_jobs(pred, n):
                 to = m.get("to")
                 kinds.add("alias" if isinstance(to, str) and to.startswith("@") or (isinstance(to, list) and to and isinstance(to[-1], str) and to[-1].startswith("@") and "from" in m and len(m) <= 2)
                           else "reponly" if "to" not in m and "repeat" in m else "row" if any(isinstance(x, dict) for x in (m.get("from") if isinstance(m.get("from"), list) else [])) else "single")
-        return (tuple(sorted(kinds)), tuple(sorted({m["repeat"]["kind"] for m in lay})), any(m["absorbing"] for m in lay), len(lay))
+        perm = any(a["from"] != b["from"] and sorted(a["from"]) == sorted(b["from"]) for a in lay for b in lay)
+        return (tuple(sorted(kinds)), tuple(sorted({m["repeat"]["kind"] for m in lay})), any(m["absorbing"] for m in lay), len(lay), perm)
     out, seen = [], set()
     with open(cpath) as f:
         for line in f:
@@ -102,7 +103,16 @@ def fancy_ref_jobs(pred, n):
             c = json.loads(line)
             e = c["expect"]
             lay = e["mappings"]
-            if not e["ok"] or not (1 <= len(lay) <= 4) or any(b > 1 for b in e["blocks"] + e["tailblocks"]):
+            if not e["ok"] or not (1 <= len(lay) <= 6):
+                continue
+            # inside the block of one source item the order of the mappings is not fixed by C13: only programs where that order cannot matter to the
+            # mapper - every block has one mapping, or its mappings all end in different trigger keys (rows)
+            pos, okb = 0, True
+            for b in e["blocks"] + e["tailblocks"]:
+                lasts = [m["from"][-1] for m in lay[pos:pos + b]]
+                okb = okb and len(set(lasts)) == len(lasts)
+                pos += b
+            if not okb or pos != len(lay):
                 continue
             if pred is not None and not pred(lay):
                 continue
@@ -115,7 +125,7 @@ def fancy_ref_jobs(pred, n):
     for t in out:
         groups.setdefault(sig(t[1], t[2]), []).append(t)
     picked = []
-    gl = [groups[k] for k in sorted(groups, key=str)]
+    gl = [groups[k] for k in sorted(groups, key=lambda k: (len(groups[k]), str(k)))]      # rare kinds first
     i = 0
     while len(picked) < n and any(gl):
         g = gl[i % len(gl)]
